@@ -9,6 +9,7 @@ import (
 	"os"
 	"path/filepath"
 	"sort"
+	"regexp"
 	"strconv"
 	"strings"
 	"time"
@@ -28,6 +29,27 @@ type Finding struct {
 	// Match narrows a finding on an enumerated (bounded) obligation to the recorded failure: when the obligation fails
 	// with an output that does not contain this text, the failure is a different violation and is reported
 	Match string `json:"match,omitempty"`
+	// MaxBad bounds an enumerated obligation's recorded failure: the finding covers the run only while the harness
+	// reports at most this many differing pairs ("(N of M pairs differ)"); more is a different violation
+	MaxBad int `json:"max_bad,omitempty"`
+}
+
+var pairsDifferRe = regexp.MustCompile(`\((\d+) of \d+ pairs differ\)`)
+
+func (f *Finding) covers(output string) bool {
+	if f.Match != "" && !strings.Contains(output, f.Match) {
+		return false
+	}
+	if f.MaxBad > 0 {
+		m := pairsDifferRe.FindStringSubmatch(output)
+		if m == nil {
+			return false
+		}
+		if n, _ := strconv.Atoi(m[1]); n > f.MaxBad {
+			return false
+		}
+	}
+	return true
 }
 
 func loadFindings() []Finding {
@@ -99,6 +121,10 @@ var propDrivers = map[string]*propDriver{
 		notes: []string{"C04's interval semantics is a bounded stand-in (exhaustive enumeration of comparator shapes on the real vers.Contains), never counted as proved; the per-function contracts of the VERS chain that are proved are listed under discharged"}},
 	"C05": {extra: func(w *World, tier string) []VC { return w.shorthandVCs() },
 		notes: []string{"C05 = proved contracts on the direct matching predicates / desugaring functions that the engine reaches (cargo caret and tilde, hex pessimistic, ...) + bounded API obligations per (ecosystem, construct) that run the real NewVersionRange+Contains against the documented interval on a grid of bases and boundary probes; the bounded obligations are stand-ins and never counted as proved"}},
+	"C10": {extra: func(w *World, tier string) []VC { return w.refOrderVCs("C10") }},
+	"C11": {extra: func(w *World, tier string) []VC { return w.refOrderVCs("C11") }},
+	"C12": {extra: func(w *World, tier string) []VC { return w.refOrderVCs("C12") }},
+	"C13": {extra: func(w *World, tier string) []VC { return w.refOrderVCs("C13") }},
 	"C14": {extra: func(w *World, tier string) []VC { return w.apkBoundedVC() },
 		notes: []string{"the numeric-component rule for equal arity without leading zeros is covered by the bounded API obligation only (its SMT proof is not stable); letters, suffix ranks, additional suffixes and the revision are proved for all values"}},
 	"C08": {extra: func(w *World, tier string) []VC {
@@ -341,7 +367,7 @@ func checkCmd(args []string) int {
 		}
 		_, inBase := baseline[name]
 		fd := isFinding(name)
-		if fd != nil && fd.Match != "" && r.res.Status != "unsat" && !strings.Contains(r.res.Output, fd.Match) {
+		if fd != nil && r.res.Status != "unsat" && !fd.covers(r.res.Output) {
 			fd, inBase = nil, true // not the recorded failure
 		}
 		if r.vc.Kind == "frame" && r.res.Status != "unsat" {
